@@ -730,6 +730,8 @@ def check_f(ctx, facts, tier, seed):
         sim.attrs['sys'] = D.sys
         D.el.steps = 0
         D.el.call(D.el.getattr_(sim, 'topologicalSort'), [], {}, {})
+        D.el.steps = 0
+        D.el.call(D.el.getattr_(sim, 'topologicalSort'), [], {}, {})       # a re-sort starts from scratch (no block twice)
         return sim
 
     def deps(D):
@@ -895,8 +897,11 @@ def run(ctx, sm, facts):
     ctx.rule('C04.e', 'pass bound raises; refusal not swallowed')
     check_a(ctx, facts)
     check_b(ctx, facts)
-    check_c(ctx, facts)
     check_f(ctx, facts, ctx.tier, ctx.seed)
+    nv, ne = len(ctx.violations), len(ctx.errors)
+    check_c(ctx, facts)
+    # the clauses of C04.c that speak about the evaluation list itself are exercised by C04.f on every netlist (each block once, also after a re-sort, nested leaves included)
+    ctx.defer_shape(('C04.c',), 'C04.f', nv, ne, keep=lambda v: v['key'] not in ('allLeaves-exhaustive', 'schedule-domain', 'schedule-reset', 'schedule-once'))
     from .c05 import check_b as c05_check_b
     ctx.rule('C05.b', 'edge-routine ordering rules (every edge is followed by a complete, unconditional propagate pass): see C05')
     c05_check_b(ctx, facts)
